@@ -391,4 +391,287 @@ theorem genStoch_fuel {o : Stoch} {m : Mode} {R : List Desc} {inc : Option Desc}
           exact this he
         · cases h
 
+/-! ## the oracle is only consumed from the front: what remains is part of what was given -/
+
+def Sub (ω' ω : Oracle) : Prop := ∀ ev ∈ ω', ev ∈ ω
+
+theorem Sub.refl (ω : Oracle) : Sub ω ω := fun _ h => h
+theorem Sub.trans {a b c : Oracle} (h1 : Sub a b) (h2 : Sub b c) : Sub a c := fun ev h => h2 ev (h1 ev h)
+
+theorem pickFrom_sub {opts : List Nat} {probs : List Rat} {ω ω' : Oracle} {v : Nat} {c : Choice}
+    (h : pickFrom opts probs ω = .ok (v, c, ω')) : Sub ω' ω := by
+  unfold pickFrom at h
+  split at h
+  · split at h
+    · split at h
+      · ok_inj h; obtain ⟨-, -, rfl⟩ := h
+        exact fun ev hev => List.mem_cons_of_mem _ hev
+      · cases h
+    · cases h
+  · cases h
+  · cases h
+
+theorem choose_sub {bds : List Desc} {b : Option Desc} {ω ω' : Oracle} {v : Nat} {c : Choice}
+    (h : choose bds b ω = .ok (v, c, ω')) : Sub ω' ω := by
+  unfold choose at h
+  simp only at h
+  split at h
+  · cases h
+  · split at h
+    · cases h
+    · exact pickFrom_sub h
+
+theorem chooseList_sub {l : List Rat} {w : Rat} {ω ω' : Oracle} {v : Nat} {c : Choice}
+    (h : chooseList l w ω = .ok (v, c, ω')) : Sub ω' ω := by
+  unfold chooseList at h
+  simp only at h
+  split at h
+  · cases h
+  · split at h
+    · cases h
+    · exact pickFrom_sub h
+
+theorem capOne_sub {o : Stoch} {s s' : Mol} {ω ω' : Oracle} {t : Trace} (h : capOne o s ω = .ok (s', t, ω')) : Sub ω' ω := by
+  unfold capOne at h
+  split at h
+  · cases h
+  · rename_i i c1 ω1 h1
+    split at h
+    · cases h
+    · rename_i c c2 ω2 h2
+      split at h
+      · split at h
+        · cases h
+        · ok_inj h; obtain ⟨-, -, rfl⟩ := h
+          exact (choose_sub h2).trans (choose_sub h1)
+      · cases h
+
+theorem capAll_sub {o : Stoch} (f : Nat) {s s' : Mol} {ω ω' : Oracle} {t : Trace} (h : capAll o f s ω = .ok (s', t, ω')) : Sub ω' ω := by
+  induction f generalizing s ω t s' ω' with
+  | zero =>
+    unfold capAll at h
+    split at h
+    · ok_inj h; obtain ⟨-, -, rfl⟩ := h; exact Sub.refl _
+    · cases h
+  | succ f ih =>
+    unfold capAll at h
+    split at h
+    · ok_inj h; obtain ⟨-, -, rfl⟩ := h; exact Sub.refl _
+    · split at h
+      · cases h
+      · rename_i s1 t1 ω1 h1
+        split at h
+        · cases h
+        · rename_i s2 t2 ω2 h2
+          ok_inj h; obtain ⟨-, -, rfl⟩ := h
+          exact (ih h2).trans (capOne_sub h1)
+
+theorem finalize_sub {o : Stoch} (f : Nat) {s s' : Mol} {ω ω' : Oracle} {t : Trace} (h : finalize o f s ω = .ok (s', t, ω')) : Sub ω' ω := by
+  unfold finalize at h
+  split at h
+  · split at h
+    · cases h
+    · rename_i k c ω1 h1
+      split at h
+      · cases h
+      · rename_i s2 t2 ω2 h2
+        ok_inj h; obtain ⟨-, -, rfl⟩ := h
+        exact (capAll_sub f h2).trans (choose_sub h1)
+  · exact capAll_sub f h
+
+theorem addUnit_sub {o : Stoch} {s s' : Mol} {ω ω' : Oracle} {t : Trace} (h : addUnit o s ω = .ok (s', t, ω')) : Sub ω' ω := by
+  unfold addUnit at h
+  split at h
+  · cases h
+  · rename_i i c1 ω1 h1
+    split at h
+    · cases h
+    · rename_i c c2 ω2 h2
+      have hp : Sub ω2 ω1 := by
+        unfold pickPartner at h2
+        split at h2
+        · exact chooseList_sub h2
+        · exact choose_sub h2
+      split at h
+      · split at h
+        · cases h
+        · ok_inj h; obtain ⟨-, -, rfl⟩ := h
+          exact hp.trans (choose_sub h1)
+      · cases h
+
+theorem growLoop_sub {o : Stoch} {start target : Rat} (f : Nat) {n : Nat} {s r : Mol} {ω ω' : Oracle} {t : Trace}
+    (h : growLoop o start target f n s ω = .ok (r, t, ω')) : Sub ω' ω := by
+  induction f generalizing n s ω t r ω' with
+  | zero => unfold growLoop at h; cases h
+  | succ f ih =>
+    unfold growLoop at h
+    split at h
+    · cases h
+    · rename_i s1 t1 ω1 h1
+      split at h
+      · ok_inj h; obtain ⟨-, -, rfl⟩ := h; exact addUnit_sub h1
+      · split at h
+        · cases h
+        · rename_i fin t2 ω2 h2
+          split at h
+          · ok_inj h; obtain ⟨-, -, rfl⟩ := h
+            exact (finalize_sub _ h2).trans (addUnit_sub h1)
+          · split at h
+            · cases h
+            · rename_i r3 t3 ω3 h3
+              ok_inj h; obtain ⟨-, -, rfl⟩ := h
+              exact ((ih h3).trans (finalize_sub _ h2)).trans (addUnit_sub h1)
+
+theorem genStoch_sub {o : Stoch} {fuel : Nat} {pre : Option Mol} {ω ω' : Oracle} {r : Mol} {t : Trace}
+    (h : genStoch o fuel pre ω = .ok (r, t, ω')) : Sub ω' ω := by
+  unfold genStoch at h
+  split at h
+  · cases h
+  · split at h
+    · cases h
+    · split at h
+      · cases h
+      · rename_i s t0 ω0 h0
+        have hs := getStart_oracle h0
+        split at h
+        · rename_i target ω1
+          split at h
+          · cases h
+          · rename_i r1 t1 ω2 h1
+            ok_inj h; obtain ⟨-, -, rfl⟩ := h
+            intro ev hev
+            exact hs ev (List.mem_cons_of_mem _ (growLoop_sub _ h1 ev hev))
+        · cases h
+        · cases h
+
+theorem genToken_sub {t : Token} {pre : Option Mol} {ω ω' : Oracle} {r : Mol} {tr : Trace}
+    (h : genToken t pre ω = .ok (r, tr, ω')) : Sub ω' ω := by
+  unfold genToken at h
+  split at h
+  · cases h
+  · split at h
+    · split at h
+      · cases h
+      · ok_inj h; obtain ⟨-, -, rfl⟩ := h; exact Sub.refl _
+    · split at h
+      · split at h
+        · cases h
+        · rename_i j c ω1 h1
+          split at h
+          · cases h
+          · ok_inj h; obtain ⟨-, -, rfl⟩ := h; exact choose_sub h1
+      · cases h
+
+theorem genToken_not_fuel (t : Token) (pre : Option Mol) (ω : Oracle) : genToken t pre ω ≠ .error .outOfFuel := by
+  intro h
+  unfold genToken at h
+  split at h
+  · cases h
+  · split at h
+    · split at h
+      · rename_i e he
+        injection h with h; subst h
+        unfold newMol at he
+        split at he <;> cases he
+      · cases h
+    · split at h
+      · split at h
+        · rename_i e he; injection h with h; subst h; exact choose_not_fuel _ _ _ he
+        · split at h
+          · rename_i e he; injection h with h; subst h; exact attach_not_fuel _ _ _ _ he
+          · cases h
+      · cases h
+
+
+/-- per-element lower bounds `ms` on the repeat-unit masses, with the no-list-into-end-groups condition, along the hand-over chain -/
+def ElemsTerm : List Element → List ElemCert → List Rat → Option Desc → Prop
+  | [], _, _, _ => True
+  | e :: es, c :: cs, m :: ms, inc =>
+    (match e with
+     | .tok _ => True
+     | .stoch o => TermOK o (startClasses o inc) c.2 m) ∧ ElemsTerm es cs ms (elemOut e c inc)
+  | _ :: _, _, _, _ => False
+
+/-- the fuel exceeds the bound of every stochastic object for every target the oracle can supply -/
+def FuelOK (fuel : Nat) : List Element → List Rat → Oracle → Prop
+  | [], _, _ => True
+  | e :: es, m :: ms, ω =>
+    (match e with
+     | .tok _ => True
+     | .stoch o => ∀ x, Event.draw x ∈ ω → 1 + unitsBound x m * (maxDescs o + 1) ≤ fuel) ∧ FuelOK fuel es ms ω
+  | _ :: _, [], _ => False
+
+theorem FuelOK.mono {fuel : Nat} {es : List Element} {ms : List Rat} {ω ω' : Oracle} (hsub : Sub ω' ω) (h : FuelOK fuel es ms ω) :
+    FuelOK fuel es ms ω' := by
+  induction es generalizing ms with
+  | nil => trivial
+  | cons e es ih =>
+    cases ms with
+    | nil => exact h.elim
+    | cons m ms =>
+      obtain ⟨h1, h2⟩ := h
+      refine ⟨?_, ih h2⟩
+      cases e with
+      | tok t => trivial
+      | stoch o => exact fun x hx => h1 x (hsub _ hx)
+
+theorem genElement_sub {fuel : Nat} {e : Element} {pre : Option Mol} {ω ω' : Oracle} {r : Mol} {t : Trace}
+    (h : genElement fuel e pre ω = .ok (r, t, ω')) : Sub ω' ω := by
+  cases e with
+  | tok tk => exact genToken_sub h
+  | stoch o => exact genStoch_sub h
+
+/-- **generation of a certified molecule terminates by itself**: with the fuel above every object's bound, `genMol` never stops
+for lack of fuel -/
+theorem genElems_fuel (fuel : Nat) :
+    ∀ (es : List Element) (cs : List ElemCert) (ms : List Rat) (pre : Option Mol) (inc : Option Desc) (ω : Oracle),
+      PreOK pre inc → ElemsOK es cs inc → ElemsTerm es cs ms inc → FuelOK fuel es ms ω →
+      genElems fuel es pre ω ≠ .error .outOfFuel := by
+  intro es
+  induction es with
+  | nil => intro cs ms pre inc ω _ _ _ _ h; simp [genElems] at h
+  | cons e es ih =>
+    intro cs ms pre inc ω hpre hok hterm hfuel h
+    cases cs with
+    | nil => exact hok.elim
+    | cons c cs =>
+      cases ms with
+      | nil => exact hfuel.elim
+      | cons m ms =>
+        obtain ⟨he, hmid, hrest⟩ := hok
+        obtain ⟨ht1, ht2⟩ := hterm
+        obtain ⟨hf1, hf2⟩ := hfuel
+        obtain ⟨-, hp⟩ := genElement_progress fuel he hpre ω
+        unfold genElems at h
+        cases hge : genElement fuel e pre ω with
+        | error e1 =>
+          simp only [hge] at h
+          injection h with h; subst h
+          cases e with
+          | tok tk => exact genToken_not_fuel tk pre ω hge
+          | stoch o => exact genStoch_fuel he ht1 fuel hpre ω hf1 hge
+        | ok r1 =>
+          obtain ⟨m', t1, ω1⟩ := r1
+          simp only [hge] at h
+          have hout := hp m' t1 ω1 hge
+          have hsub := genElement_sub hge
+          cases es with
+          | nil => simp [genElems] at h
+          | cons e2 es2 =>
+            have hsome := hmid (by simp)
+            cases ho : elemOut e c inc with
+            | none => exact absurd ho hsome
+            | some d =>
+              rw [ho] at hout hrest ht2
+              cases hrec : genElems fuel (e2 :: es2) (some m') ω1 with
+              | error e3 =>
+                simp only [hrec] at h
+                injection h with h; subst h
+                exact ih cs ms (some m') (some d) ω1 hout hrest ht2 (hf2.mono hsub) hrec
+              | ok r3 =>
+                obtain ⟨r, t2, ω2⟩ := r3
+                simp only [hrec] at h
+                cases h
+
+
 end GBS
